@@ -245,10 +245,13 @@ func (c *UDPConn) WriteTo(payload []byte, addr net.Addr) (int, error) { //nolint
 	}
 
 	//nolint:nestif
-	if !bound.ok() {
+	if bound == nil || !bound.ok() {
 		// Try to establish an initial binding with the server.
-		// Writes still occur via indications meanwhile.
-		c.maybeBind(bound)
+		// Writes still occur via indications meanwhile, and for good
+		// when every channel number is held by another peer.
+		if bound != nil {
+			c.maybeBind(bound)
+		}
 
 		// Send data using SendIndication
 		peerAddr := addr2PeerAddress(addr)
